@@ -938,3 +938,288 @@ pub proof fn lemma_subst_sem(f: SymbolicBDD, x: Sym, rep: SymbolicBDD, y: BDD, g
         }
     }
 }
+
+// ================================================================ grammar (C08): README "Syntax" as total functions on token sequences
+
+pub type Tok = SymbolicBDDToken;
+pub type Toks = Seq<SymbolicBDDToken>;
+
+/// specification-level syntax tree (the exec tree SymbolicBDD holds Vec/Box and cannot be built in spec code)
+pub ghost enum Ast {
+    False,
+    True,
+    Var(Sym),
+    Reference(String),
+    Not(Box<Ast>),
+    Quantifier(QuantifierType, Seq<Sym>, Box<Ast>),
+    CountableConst(CountableOperator, Seq<Ast>, usize),
+    CountableVariable(CountableOperator, Seq<Ast>, Seq<Ast>),
+    FixedPoint(Sym, bool, Box<Ast>),
+    Ite(Box<Ast>, Box<Ast>, Box<Ast>),
+    BinaryOp(BinaryOperator, Box<Ast>, Box<Ast>),
+}
+
+/// the exec tree f is the tree a
+pub open spec fn repr(f: SymbolicBDD, a: Ast) -> bool
+    decreases f
+{
+    match f {
+        SymbolicBDD::False => a is False,
+        SymbolicBDD::True => a is True,
+        SymbolicBDD::Var(v) => a matches Ast::Var(w) && w == v,
+        SymbolicBDD::Reference(n) => a matches Ast::Reference(m) && m == n,
+        SymbolicBDD::Subtree(_) => false,
+        SymbolicBDD::Not(b) => a matches Ast::Not(b2) && repr(*b, *b2),
+        SymbolicBDD::Quantifier(q, vs, b) => a matches Ast::Quantifier(q2, vs2, b2) && q2 == q && vs2 == vs@ && repr(*b, *b2),
+        SymbolicBDD::CountableConst(op, bs, n) => a matches Ast::CountableConst(op2, cs, n2) && op2 == op && n2 == n && repr_list(bs@, cs),
+        SymbolicBDD::CountableVariable(op, l, r) => a matches Ast::CountableVariable(op2, l2, r2) && op2 == op && repr_list(l@, l2) && repr_list(r@, r2),
+        SymbolicBDD::FixedPoint(x, i, t) => a matches Ast::FixedPoint(x2, i2, t2) && x2 == x && i2 == i && repr(*t, *t2),
+        SymbolicBDD::Ite(c, t, e) => a matches Ast::Ite(c2, t2, e2) && repr(*c, *c2) && repr(*t, *t2) && repr(*e, *e2),
+        SymbolicBDD::BinaryOp(op, l, r) => a matches Ast::BinaryOp(op2, l2, r2) && op2 == op && repr(*l, *l2) && repr(*r, *r2),
+    }
+}
+pub open spec fn repr_list(fs: Seq<SymbolicBDD>, cs: Seq<Ast>) -> bool
+    decreases fs
+{
+    fs.len() == cs.len() && forall|i: int| 0 <= i < fs.len() ==> repr(#[trigger] fs[i], cs[i])
+}
+
+pub open spec fn binop_of(t: Tok) -> Option<BinaryOperator> {
+    match t {
+        SymbolicBDDToken::And => Some(BinaryOperator::And),
+        SymbolicBDDToken::Or => Some(BinaryOperator::Or),
+        SymbolicBDDToken::Xor => Some(BinaryOperator::Xor),
+        SymbolicBDDToken::Nor => Some(BinaryOperator::Nor),
+        SymbolicBDDToken::Nand => Some(BinaryOperator::Nand),
+        SymbolicBDDToken::Implies => Some(BinaryOperator::Implies),
+        SymbolicBDDToken::ImpliesInv => Some(BinaryOperator::ImpliesInv),
+        SymbolicBDDToken::Iff => Some(BinaryOperator::Iff),
+        _ => None,
+    }
+}
+
+/// counting operators; `<=` is the same token as reverse implication
+pub open spec fn cntop_of(t: Tok) -> Option<CountableOperator> {
+    match t {
+        SymbolicBDDToken::Eq => Some(CountableOperator::Exactly),
+        SymbolicBDDToken::ImpliesInv => Some(CountableOperator::AtMost),
+        SymbolicBDDToken::Geq => Some(CountableOperator::AtLeast),
+        SymbolicBDDToken::Lt => Some(CountableOperator::LessThan),
+        SymbolicBDDToken::Gt => Some(CountableOperator::MoreThan),
+        _ => None,
+    }
+}
+
+pub open spec fn head_is(ts: Toks, t: Tok) -> bool { ts.len() > 0 && ts[0] == t }
+
+pub type PRes = Option<(Ast, Toks)>;
+
+/// simple term: parenthesised formula, counting formula, constant, reference, variable, negation of a simple term,
+/// quantifier, fixed point, if-then-else
+pub open spec fn p_simple(ts: Toks) -> PRes
+    decreases ts.len(), 2nat
+{
+    if ts.len() == 0 { None } else {
+        match ts[0] {
+            SymbolicBDDToken::OpenParen => p_paren(ts),
+            SymbolicBDDToken::OpenSquare => p_countable(ts),
+            SymbolicBDDToken::False => Some((Ast::False, ts.skip(1))),
+            SymbolicBDDToken::True => Some((Ast::True, ts.skip(1))),
+            SymbolicBDDToken::Reference(n) => Some((Ast::Reference(n), ts.skip(1))),
+            SymbolicBDDToken::Var(v) => Some((Ast::Var(v), ts.skip(1))),
+            SymbolicBDDToken::Not => p_negation(ts),
+            SymbolicBDDToken::Exists => p_quant(QuantifierType::Exists, ts),
+            SymbolicBDDToken::Forall => p_quant(QuantifierType::Forall, ts),
+            SymbolicBDDToken::GFP => p_fixed(ts, true),
+            SymbolicBDDToken::LFP => p_fixed(ts, false),
+            SymbolicBDDToken::If => p_ite(ts),
+            _ => None,
+        }
+    }
+}
+
+/// formula: simple term, optionally followed by a binary operator and a formula (right associative, no precedence)
+pub open spec fn p_sub(ts: Toks) -> PRes
+    decreases ts.len(), 3nat
+{
+    match p_simple(ts) {
+        None => None,
+        Some((left, r)) =>
+            if r.len() > 0 && binop_of(r[0]) is Some {
+                if r.len() <= ts.len() {
+                    match p_sub(r.skip(1)) {
+                        Some((right, r2)) => Some((Ast::BinaryOp(binop_of(r[0])->0, Box::new(left), Box::new(right)), r2)),
+                        None => None,
+                    }
+                } else { None }
+            } else { Some((left, r)) },
+    }
+}
+
+/// `(` formula `)`
+pub open spec fn p_paren(ts: Toks) -> PRes
+    decreases ts.len(), 1nat
+{
+    if !head_is(ts, SymbolicBDDToken::OpenParen) { None } else {
+        match p_sub(ts.skip(1)) {
+            Some((f, r)) => if head_is(r, SymbolicBDDToken::CloseParen) { Some((f, r.skip(1))) } else { None },
+            None => None,
+        }
+    }
+}
+
+/// prefix negation applies to the next simple term
+pub open spec fn p_negation(ts: Toks) -> PRes
+    decreases ts.len(), 1nat
+{
+    if !head_is(ts, SymbolicBDDToken::Not) { None } else {
+        match p_simple(ts.skip(1)) {
+            Some((f, r)) => Some((Ast::Not(Box::new(f)), r)),
+            None => None,
+        }
+    }
+}
+
+/// `if` formula `then` formula `else` formula   (the else branch extends as far right as possible)
+pub open spec fn p_ite(ts: Toks) -> PRes
+    decreases ts.len(), 1nat
+{
+    if !head_is(ts, SymbolicBDDToken::If) { None } else {
+        match p_sub(ts.skip(1)) {
+            None => None,
+            Some((c, r1)) => if !(head_is(r1, SymbolicBDDToken::Then) && r1.len() <= ts.len()) { None } else {
+                match p_sub(r1.skip(1)) {
+                    None => None,
+                    Some((t, r2)) => if !(head_is(r2, SymbolicBDDToken::Else) && r2.len() <= ts.len()) { None } else {
+                        match p_sub(r2.skip(1)) {
+                            None => None,
+                            Some((e, r3)) => Some((Ast::Ite(Box::new(c), Box::new(t), Box::new(e)), r3)),
+                        }
+                    },
+                }
+            },
+        }
+    }
+}
+
+/// variable list `v1, v2, ..` up to (not including) `#`; may be empty; a trailing comma is allowed
+pub open spec fn p_vars(ts: Toks, acc: Seq<Sym>) -> Option<(Seq<Sym>, Toks)>
+    decreases ts.len()
+{
+    if head_is(ts, SymbolicBDDToken::Hash) { Some((acc, ts)) }
+    else if ts.len() > 0 && ts[0] is Var {
+        let r = ts.skip(1);
+        if head_is(r, SymbolicBDDToken::Comma) { p_vars(r.skip(1), acc.push(ts[0]->Var_0)) } else { Some((acc.push(ts[0]->Var_0), r)) }
+    } else { None }
+}
+
+/// `exists|forall` variable-list `#` formula   (the body extends as far right as possible)
+pub open spec fn p_quant(q: QuantifierType, ts: Toks) -> PRes
+    decreases ts.len(), 1nat
+{
+    if !head_is(ts, if q == QuantifierType::Exists { SymbolicBDDToken::Exists } else { SymbolicBDDToken::Forall }) { None } else {
+        match p_vars(ts.skip(1), Seq::empty()) {
+            None => None,
+            Some((vs, r)) => if !(head_is(r, SymbolicBDDToken::Hash) && r.len() <= ts.len()) { None } else {
+                match p_sub(r.skip(1)) {
+                    None => None,
+                    Some((f, r2)) => Some((Ast::Quantifier(q, vs, Box::new(f)), r2)),
+                }
+            },
+        }
+    }
+}
+
+/// `gfp|lfp` variable `#` formula; gfp/nu iterate from true, lfp/mu from false
+pub open spec fn p_fixed(ts: Toks, init: bool) -> PRes
+    decreases ts.len(), 1nat
+{
+    if !(ts.len() >= 3 && ts[0] == (if init { SymbolicBDDToken::GFP } else { SymbolicBDDToken::LFP }) && ts[1] is Var && ts[2] == SymbolicBDDToken::Hash) { None } else {
+        match p_sub(ts.skip(3)) {
+            None => None,
+            Some((f, r)) => Some((Ast::FixedPoint(ts[1]->Var_0, init, Box::new(f)), r)),
+        }
+    }
+}
+
+/// list items after `[`: formulas separated by commas, up to (not including) `]`; a trailing comma is allowed
+pub open spec fn p_items(ts: Toks, acc: Seq<Ast>) -> Option<(Seq<Ast>, Toks)>
+    decreases ts.len(), 4nat
+{
+    if head_is(ts, SymbolicBDDToken::CloseSquare) { Some((acc, ts)) } else {
+        match p_sub(ts) {
+            None => None,
+            Some((f, r)) =>
+                if head_is(r, SymbolicBDDToken::Comma) {
+                    if r.len() <= ts.len() { p_items(r.skip(1), acc.push(f)) } else { None }
+                } else { Some((acc.push(f), r)) },
+        }
+    }
+}
+
+/// `[` items `]`
+pub open spec fn p_list(ts: Toks) -> Option<(Seq<Ast>, Toks)>
+    decreases ts.len(), 0nat
+{
+    if !head_is(ts, SymbolicBDDToken::OpenSquare) { None } else {
+        match p_items(ts.skip(1), Seq::empty()) {
+            None => None,
+            Some((fs, r)) => if head_is(r, SymbolicBDDToken::CloseSquare) { Some((fs, r.skip(1))) } else { None },
+        }
+    }
+}
+
+/// list, counting operator, then a second list or a number
+pub open spec fn p_countable(ts: Toks) -> PRes
+    decreases ts.len(), 1nat
+{
+    match p_list(ts) {
+        None => None,
+        Some((l, r)) =>
+            if !(r.len() > 0 && cntop_of(r[0]) is Some) { None } else {
+                let op = cntop_of(r[0])->0;
+                let r1 = r.skip(1);
+                if head_is(r1, SymbolicBDDToken::OpenSquare) {
+                    if r1.len() < ts.len() {
+                        match p_list(r1) {
+                            None => None,
+                            Some((rl, r2)) => Some((Ast::CountableVariable(op, l, rl), r2)),
+                        }
+                    } else { None }
+                } else if r1.len() > 0 && r1[0] is Countable {
+                    Some((Ast::CountableConst(op, l, r1[0]->Countable_0), r1.skip(1)))
+                } else { None }
+            },
+    }
+}
+
+/// a sentence: formula followed by end of input
+pub open spec fn p_formula(ts: Toks) -> Option<Ast> {
+    match p_sub(ts) {
+        Some((f, r)) => if head_is(r, SymbolicBDDToken::Eof) { Some(f) } else { None },
+        None => None,
+    }
+}
+
+/// the exec result r / remaining tokens rem agree with the grammar's verdict pr
+pub open spec fn pres_ok(pr: PRes, r: Result<SymbolicBDD, io::Error>, rem: Toks) -> bool {
+    match pr {
+        Some((ast, rr)) => r is Ok && repr(r->Ok_0, ast) && rem == rr,
+        None => r is Err,
+    }
+}
+pub open spec fn plist_ok(pr: Option<(Seq<Ast>, Toks)>, r: Result<Vec<SymbolicBDD>, io::Error>, rem: Toks) -> bool {
+    match pr {
+        Some((asts, rr)) => r is Ok && repr_list(r->Ok_0@, asts) && rem == rr,
+        None => r is Err,
+    }
+}
+
+/// skip arithmetic on token sequences
+pub proof fn lemma_skips(ts: Toks)
+    ensures
+        ts.len() >= 1 ==> ts.skip(1).len() == ts.len() - 1,
+        ts.len() >= 2 ==> ts.skip(1)[0] == ts[1] && ts.skip(1).skip(1) =~= ts.skip(2),
+        ts.len() >= 3 ==> ts.skip(2)[0] == ts[2] && ts.skip(2).skip(1) =~= ts.skip(3),
+{
+}
